@@ -105,8 +105,22 @@ def one_run(case, corners, mesh=None):
                                                  "".join(", %s=%s" % (k, "<array>" if k == "custom_boundary" and v is not None else repr(v))
                                                          for k, v in kw2.items()))
     invoke = (case.get("call") or {}).get("invoke", "run")
+    peek = bool((case.get("call") or {}).get("peek"))
+
+    def read_public(w):
+        # every public attribute / property of the worker (enumerated from the object) is READ; values are not judged
+        for name in dir(w):
+            if not name.startswith("_"):
+                try:
+                    val = getattr(w, name)
+                    if not callable(val):
+                        repr(type(val))
+                except Exception:
+                    pass
     try:
         t = TutteEmbedding(mesh, *args, **kw2)
+        if peek:
+            read_public(t)           # before run(): flat_mesh, uvs, ... are read while nothing is computed yet
         if invoke == "call":
             t()                      # what the call returns is not constrained
         elif invoke == "twice":
@@ -114,7 +128,7 @@ def one_run(case, corners, mesh=None):
             t.run()
         elif invoke == "flat-rerun":
             t.run()
-            _ = t.flat_mesh
+            read_public(t)           # between two runs
             t.run()
         else:
             t.run()
